@@ -145,10 +145,10 @@ def rule_r4(ctx, rid="C11.R4"):
     ctx.r.rule(rid, "readable() is false under each of: will_close, close_when_flushed, queue longer than the lookahead, pending output")
     p = ctx.p
     f = p.func("channel.HTTPChannel.readable")
-    rets = [n for n in ast.walk(f.node) if isinstance(n, ast.Return)]
-    if len(rets) != 1 or rets[0].value is None:
-        raise AnalysisError("readable() is not a single return expression")
-    e = rets[0].value
+    from .common import return_expression
+    e = return_expression(f)
+    if e is None:
+        raise AnalysisError("readable() does more than decide its return value")
     # the quantities the formula speaks about, valued over small domains: flags {F,T}, counters {0,1,2}
     leaves = formula_leaves(e)
     role = {}
